@@ -584,3 +584,38 @@ Proof. reflexivity. Qed.
 Lemma mon_implies_or p q tr i :
   mon (Implies p q) tr i = mon (Or (Not p) q) tr i.
 Proof. reflexivity. Qed.
+
+(* ------------------------------------------------------------------ the run, characterised by the
+   sequence of verdicts: reject at the first FALSE verdict, otherwise by the last verdict *)
+Fixpoint first_BF (vs : list B4) (n : nat) : option nat :=
+  match vs with
+  | [] => None
+  | v :: vs' => if is_BF v then Some n else first_BF vs' (S n)
+  end.
+
+Lemma last_cons_indep {A} : forall (l : list A) b d d', last (b :: l) d = last (b :: l) d'.
+Proof. induction l as [|x l IH]; intros b d d'; [reflexivity|]. change (last (x :: l) d = last (x :: l) d'). apply IH. Qed.
+
+Lemma run_from_verdicts f : forall rest seen lastv,
+  run_from f seen rest lastv =
+  match first_BF (verdicts_from f seen rest) (length seen) with
+  | Some t => Reject t
+  | None => if is_falsy (last (verdicts_from f seen rest) lastv) then Reject (length seen + length rest - 1) else Accept
+  end.
+Proof.
+  induction rest as [|s rest IH]; intros seen lastv; simpl.
+  - now rewrite Nat.add_0_r.
+  - destruct (is_BF (verdict f (seen ++ [s]))) eqn:E; [reflexivity|].
+    rewrite IH. rewrite app_length. simpl. rewrite Nat.add_1_r.
+    destruct (first_BF _ _); [reflexivity|].
+    replace (S (length seen) + length rest - 1) with (length seen + S (length rest) - 1) by lia.
+    destruct (verdicts_from f (seen ++ [s]) rest) eqn:V; [reflexivity|].
+    now rewrite (last_cons_indep l b lastv (verdict f (seen ++ [s]))).
+Qed.
+
+Theorem run_by_verdicts f tr :
+  run f tr = match first_BF (verdicts f tr) 0 with
+             | Some t => Reject t
+             | None => if is_falsy (last (verdicts f tr) BT) then Reject (length tr - 1) else Accept
+             end.
+Proof. unfold run, verdicts. now rewrite run_from_verdicts. Qed.
